@@ -17,12 +17,37 @@ Definition dash : ascii := "-"%char.
 Definition hash : ascii := "#"%char.
 
 (* the check applied to the text after "---": strings.TrimSpace(line ++ "\n") is empty or starts with '#'.
-   ASCII white space only (the harness keeps separator lines ASCII; strings.TrimSpace also trims
-   U+0085, U+00A0 and the Unicode space separators). *)
+   Only the white space before the first other character matters.  strings.TrimSpace trims the Unicode
+   White_Space code points; in UTF-8: the ASCII ones, U+0085 (C2 85), U+00A0 (C2 A0), U+1680 (E1 9A 80),
+   U+2000..U+200A (E2 80 80..8A), U+2028, U+2029 (E2 80 A8/A9), U+202F (E2 80 AF), U+205F (E2 81 9F),
+   U+3000 (E3 80 80).  A byte that does not start a valid encoding is not white space. *)
+Definition byte_is (c : ascii) (n : N) : bool := (N_of_ascii c =? n)%N.
+
 Fixpoint sep_line_ok (line : string) : bool :=
   match line with
   | EmptyString => true
-  | String c rest => if is_space c then sep_line_ok rest else Ascii.eqb c hash
+  | String c rest =>
+      if is_space c then sep_line_ok rest
+      else
+        match rest with
+        | String c2 rest2 =>
+            if byte_is c 194 && (byte_is c2 133 || byte_is c2 160) then sep_line_ok rest2
+            else
+              match rest2 with
+              | String c3 rest3 =>
+                  let n2 := N_of_ascii c2 in
+                  let n3 := N_of_ascii c3 in
+                  if (byte_is c 225 && byte_is c2 154 && byte_is c3 128)
+                     || (byte_is c 226 && byte_is c2 128 &&
+                         (((128 <=? n3)%N && (n3 <=? 138)%N) || byte_is c3 168 || byte_is c3 169 || byte_is c3 175))
+                     || (byte_is c 226 && byte_is c2 129 && byte_is c3 159)
+                     || (byte_is c 227 && byte_is c2 128 && byte_is c3 128)
+                  then sep_line_ok rest3
+                  else Ascii.eqb c hash
+              | EmptyString => Ascii.eqb c hash
+              end
+        | EmptyString => Ascii.eqb c hash
+        end
   end.
 
 Inductive smode :=
